@@ -27,9 +27,21 @@ def time_ordered(path):
     return all(x == 1 for x in d) or all(x == -1 for x in d)
 
 
+def velocity_direction_ok(path):
+    """Every frame's velocity (stored direction, flipped if vel_rev) points along the path's own time order."""
+    ts = [getattr(pp, "t", None) for pp in path.phasepoints]
+    if len(ts) < 2 or None in ts:
+        return True
+    d = 1 if ts[1] > ts[0] else -1
+    return all(getattr(pp, "gdt", 1) * (-1 if pp.vel_rev else 1) == d for pp in path.phasepoints)
+
+
 def judge_accepted(dyn, kind, i, trial, es, old_sites, maxlength, mvlist, cap, clauses, lm1=False):
     """C09 clauses for an accepted path."""
     new = lat.sites(trial)
+    if not velocity_direction_ok(trial):
+        clauses.append(("velocity-direction", f"accepted path {new}: velocity flags {[bool(p.vel_rev) for p in trial.phasepoints]} do not all point along the "
+                        f"path's time order {[getattr(p, 't', None) for p in trial.phasepoints]} (generated {[getattr(p, 'gdt', None) for p in trial.phasepoints]})"))
     if not lp.member(dyn, kind, new, i=i, maxlen=maxlength):
         clauses.append(("not-member", f"accepted path {new} is not a member of its ensemble (kind={kind}, i={i}, maxlength={maxlength})"))
     if not time_ordered(trial):
